@@ -13,7 +13,7 @@ claim(
 claim(
     "C18",
     "exhaustive short-string enumeration + grammar-based mutation fuzzing with an outcome-class oracle and a logical step-bound monitor on the precedence comparator",
-    "All strings of <=4 (quick) / <=5 (thorough) tokens over a 34-token alphabet are compiled with parse() (and select() on a deterministic slice), plus token-level mutations of valid selectors through parse/select/probing; every outcome must be a Selector, SyntaxError with offset, SelectorError, or the documented TypeError; termination is decided by a step counter on the parser's comparator. Semantically bad templates must be refused at probe creation/activation. Exhaustive within the stated length bound only.",
+    "All strings of <=4 (quick) / <=5 (thorough) tokens over a 37-token alphabet are compiled with parse() (and select() on a deterministic slice), plus token-level mutations of valid selectors through parse/select/probing; every outcome must be a Selector, SyntaxError with offset, SelectorError, or the documented TypeError; termination is decided by a step counter on the parser's comparator. Semantically bad templates must be refused at probe creation/activation. Exhaustive within the stated length bound only.",
     "CodeNotFoundError is accepted from select()/probing() for unresolvable absolute references (unit-tested behaviour); ValueError('Unsupported focus pattern') accepted from probing(); environment callables are total.",
 )
 claim(
